@@ -234,6 +234,10 @@ def make_xml_entry():
         part.add(S.Clef(staff=1, sign="G", line=2, octave_change=0), 0)
         for i, st in enumerate("CDEFGABC"):
             part.add(S.Note(step=st, octave=4, id="n%d" % i, voice=1, staff=1, symbolic_duration={"type": "quarter"}), 4 * i, 4 * i + 4)
+        # polyphony inside voice 1 (a longer note under n0, a note still sounding when n5 starts): the exporter moves
+        # such notes to free voices when writing - in the file, not in the score
+        part.add(S.Note(step="E", octave=3, id="m0", voice=1, staff=1, symbolic_duration={"type": "half"}), 0, 8)
+        part.add(S.Note(step="G", octave=3, id="m1", voice=1, staff=1, symbolic_duration={"type": "half"}), 18, 26)
         part.add(S.SustainPedalDirection(staff=1, line=True), 0, 8)
         if closed:
             part.add(S.SustainPedalDirection(staff=1, line=False), t_ped, 32)
